@@ -196,7 +196,12 @@ pub fn streams(ctx: &Ctx) -> Stats {
         let mut rng = Rng::keyed(ctx.seed, "c02.streams", idx);
         let k = (idx % 31) as usize + 1;
         let len = gen_len(&mut rng, k, None, k + 80);
-        let (class, seq) = gen_seq_any(&mut rng, len, false);
+        let (class, mut seq) = gen_seq_any(&mut rng, len, false);
+        if idx % 20_000 == 19 {
+            // a record with far more than 2^16 consecutive unambiguous bases (counter widths)
+            seq = (0..rng.usize(66_000, 140_000)).map(|_| *rng.pick(b"ACGT")).collect();
+            st.class("clean-run>65536");
+        }
         st.class(class.name());
         judge_stream(st, &seq, k);
         if idx % 9973 == 5 {
